@@ -75,6 +75,74 @@ example : processRequest [47, 109, 47] (some [47, 100]) exEnv true
     ([47, 109, 47] ++ sQueue) (some (sFile ++ [61, 46, 46, 37, 50, 70, 120])) = .resp 400 none := by
   decide
 
+/-! ### File-system level
+
+`Env.canon` instantiated with the model's own `realpath` over a finite tree of directories, files
+and symbolic links (`canonFs`, compared with the real `std::fs::canonicalize` on every engine
+case). -/
+
+/-- `realpath` returns a *resolved location*: every component exists, none is a symbolic link,
+    all but possibly the last are directories. -/
+theorem canonFs_resolved (fs : Fs) (s : Bytes) (p : List Bytes) (h : canonFs fs s = .ok p) :
+    Resolved fs p := (canonFs_ok h).1
+
+/-- **Confinement over a file system.** Whatever symbolic links the tree contains and whatever the
+    `file` parameter is, the enqueued path is the rendering of a resolved location `pcs` of the
+    tree (link-free, existing), the update directory resolves to a link-free directory `dcs`, and
+    `dcs` is a prefix of `pcs`: the file physically lies in the update directory's subtree. -/
+theorem C20_confined_fs (fs : Fs) (apiPath : Bytes) (cfg : Option Bytes) (rxOpen : Bool)
+    (reply : Reply) (isGet : Bool) (rawPath : Bytes) (query : Option Bytes) (st : Nat) (p : Bytes)
+    (h : processRequest apiPath cfg ⟨canonOracle fs, rxOpen, reply⟩ isGet rawPath query
+          = .resp st (some p)) :
+    ∃ up dcs pcs, cfg = some up ∧ canonFs fs up = .ok dcs ∧
+      Resolved fs dcs ∧ Resolved fs pcs ∧ p = render pcs ∧ dcs <+: pcs := by
+  obtain ⟨up, d, file, hc, hd, _, _, hp, _, hpre, _, _⟩ :=
+    C20_confined apiPath cfg _ isGet rawPath query st p h
+  simp only [canonOracle] at hd hp
+  cases hcd : canonFs fs up with
+  | ok dcs =>
+    rw [hcd] at hd
+    cases hd
+    cases hcp : canonFs fs (push (render dcs) file) with
+    | ok pcs =>
+      rw [hcp] at hp
+      cases hp
+      have hdo := canonFs_ok hcd
+      have hpo := canonFs_ok hcp
+      rw [parsePath_render dcs hdo.2, parsePath_render pcs hpo.2] at hpre
+      exact ⟨up, dcs, pcs, hc, hcd, hdo.1, hpo.1, rfl, prefix_of_map_normal hpre⟩
+    | err => rw [hcp] at hp; cases hp
+    | escaped => rw [hcp] at hp; cases hp
+    | fuelOut => rw [hcp] at hp; cases hp
+  | err => rw [hcd] at hd; cases hd
+  | escaped => rw [hcd] at hd; cases hd
+  | fuelOut => rw [hcd] at hd; cases hd
+
+/-- non-vacuity: `/@R@/u` (update dir) with a file `a`, a link `l -> ../o/s` to a file outside,
+    a link `i -> a` to a file inside; `/@R@/o/s` outside. -/
+def exFs : Fs := ⟨[
+  ([rootName, [117]], .dir), ([rootName, [117], [97]], .file),
+  ([rootName, [117], [108]], .link [46, 46, 47, 111, 47, 115]),
+  ([rootName, [117], [105]], .link [97]),
+  ([rootName, [111]], .dir), ([rootName, [111], [115]], .file)]⟩
+
+/-- `/@R@/u` -/
+def exUpd : Bytes := 47 :: rootName ++ [47, 117]
+
+example : canonFs exFs (exUpd ++ [47, 108]) = .ok [rootName, [111], [115]] := by decide
+/-- `file=a`: enqueued -/
+example : processRequest [47, 109, 47] (some exUpd) ⟨canonOracle exFs, true, .ok⟩ true
+    ([47, 109, 47] ++ sQueue) (some (sFile ++ [61, 97])) = .resp 200 (some (exUpd ++ [47, 97])) := by
+  decide
+/-- `file=i` (link to a file inside): the *target* is enqueued -/
+example : processRequest [47, 109, 47] (some exUpd) ⟨canonOracle exFs, true, .ok⟩ true
+    ([47, 109, 47] ++ sQueue) (some (sFile ++ [61, 105])) = .resp 200 (some (exUpd ++ [47, 97])) := by
+  decide
+/-- `file=l` (link to a file outside): 400, nothing enqueued -/
+example : processRequest [47, 109, 47] (some exUpd) ⟨canonOracle exFs, true, .ok⟩ true
+    ([47, 109, 47] ++ sQueue) (some (sFile ++ [61, 108])) = .resp 400 none := by
+  decide
+
 /-- **Rejections answer 400.** A handled request that enqueues nothing is answered 400. -/
 theorem C20_reject_400 (apiPath : Bytes) (cfg : Option Bytes) (env : Env) (isGet : Bool)
     (rawPath : Bytes) (query : Option Bytes) (st : Nat)
